@@ -395,6 +395,47 @@ async def twins(root, encrypted):
     return problems
 
 
+async def clean_twice(root, encrypted):
+    """two cleans in ONE process (library use, a long-lived caller), by the same object and by a fresh one: between them a snapshot object
+    disappears without its chunks (an interrupted delete), so chunks that were referenced during the first clean are orphans for the
+    second - which must remove exactly them"""
+    global CACHE_MODE
+    CACHE_MODE = 'none'
+    problems = []
+    users = await setup_users(root, encrypted)
+    user = users[0]
+    src = root / 'src'
+    src.mkdir()
+    store = Local(root / 'repo')
+    for fresh_object in (False, True):
+        r = await open_repo(root, user)
+        with lib.quiet():
+            (src / 'a').write_bytes(lib.content(900 + fresh_object, 900))
+            keep = (await r.snapshot(paths=[src])).name
+            (src / 'a').write_bytes(lib.content(910 + fresh_object, 1100))
+            victim = (await r.snapshot(paths=[src])).name
+            await r.clean()                                        # nothing to do; whatever it remembers must not matter later
+            gone = [n for n in store.list_files('snapshots/') if n.endswith(victim)]
+            assert len(gone) == 1, 'harness: snapshot object of the victim not found'
+            for n in gone:
+                store.delete(n)                                    # the snapshot object goes, its chunks stay (delete interrupted after phase 1)
+            if fresh_object:
+                await r.close()
+                r = await open_repo(root, user)
+            await r.clean()
+            _, locs = await loaded(root, user)
+            present = set(store.list_files('data/'))
+            mine = present                                         # single key family in this repository besides the other users' (none wrote)
+            if mine - set(locs):
+                problems.append({'problem': 'second clean in one process left orphaned chunks', 'n': len(mine - set(locs)), 'fresh_object': fresh_object,
+                                 'snapshot_object_removed': bool(gone)})
+            if set(locs) - present:
+                problems.append({'problem': 'second clean in one process removed referenced chunks', 'n': len(set(locs) - present)})
+            await r.restore(snapshot_regex=f'^{keep}$', path=root / f'out_clean_twice_{int(fresh_object)}')
+        await r.close()
+    return problems
+
+
 async def many_snapshots(root, encrypted, n_snapshots):
     """MORE snapshots than any window / batch / pool of the loader holds: every one of them is loaded (listed), and a clean by a
     shared-key user (or the owner) removes nothing that any of them references"""
@@ -564,6 +605,16 @@ def main():
                 if probs:
                     failures.append({'id': f'twins_{int(encrypted)}', 'class': None, 'case': {'encrypted': encrypted, 'scenario': 'several snapshots deleted in one call'}, 'detail': probs[:3]})
     if prop == 'C08':
+        for encrypted in (True, False):
+            with lib.scratch('vf_hist_') as root:
+                cases += 1
+                try:
+                    probs = asyncio.run(clean_twice(root, encrypted))
+                except Exception as e:
+                    import traceback
+                    probs = [{'problem': 'exception', 'error': f'{type(e).__name__}: {e}'[:300], 'tb': traceback.format_exc()[-600:]}]
+                if probs:
+                    failures.append({'id': f'clean_twice_{int(encrypted)}', 'class': None, 'case': {'encrypted': encrypted, 'scenario': 'two cleans in one process around an interrupted delete'}, 'detail': probs[:3]})
         # completeness at scale: a snapshot interrupted just before its snapshot object was written leaves MANY orphans (more than
         # any plausible batch / page / pool size); one clean must remove all of them and nothing of the other users
         for encrypted in (True, False):
